@@ -129,6 +129,9 @@ func (rm *RequestManager) requestTask(requestID graphsync.RequestID) executor.Re
 			maxLinks = ipr.maxLinks
 		}
 		if maxLinks > 0 {
+			if maxLinks > math.MaxInt64 {
+				maxLinks = math.MaxInt64
+			}
 			budget = &traversal.Budget{
 				NodeBudget: math.MaxInt64,
 				LinkBudget: int64(maxLinks),
